@@ -417,6 +417,10 @@ func (m *Machine) resetPath() {
 	m.preempts = 0
 	m.ctx.nfresh = 0
 	m.pendingEnd = nil
+	m.opaqueAlloc = false
+	m.uf = nil
+	m.crypto = nil
+	m.divMemo = nil
 	m.aborting = false
 	g0 := &G{id: 0, started: true, resume: make(chan struct{})}
 	m.gs = []*G{g0}
